@@ -261,3 +261,89 @@ Example C16_device_spec_examples :
   wf_device {| d_qubits := [(0, 0); (0, 1); (1, 1)]; d_pairs := [((0, 0), (0, 1)); ((0, 1), (1, 1))] |} /\
   coupling ex_pair_spec (0, 0) (0, 1) /\ ~ coupling ex_pair_spec (0, 0) (1, 1).
 Proof. exact device_spec_examples. Qed.
+
+(* ================= array-valued arguments (model: Codec/NdArray.v) ================= *)
+From VF Require Import Codec.NdArray Codec.NdArrayProofs.
+
+(* from_*_array(to_*_array(a)) has the shape of a and, at every index, the element a has there -- for every array with
+   at least one axis, whatever its strides (C- or Fortran-contiguous, transposed, sliced, reversed, broadcast) and offset *)
+Theorem C16_ndarray_roundtrip : forall (A : Type) (d : A) buf v, v_shape v <> [] ->
+  exists flat, from_msg (to_msg d buf v) = Some (v_shape v, flat) /\
+               forall idx, in_bounds (v_shape v) idx -> from_flat d (v_shape v) flat idx = NdArray.get d buf v idx.
+Proof. exact @nd_roundtrip. Qed.
+Print Assumptions C16_ndarray_roundtrip.
+
+(* what is written depends on the shape and on the element at each index only, never on the memory layout *)
+Theorem C16_ndarray_layout_independent : forall (A : Type) (d : A) buf1 v1 buf2 v2, v_shape v1 = v_shape v2 ->
+  (forall idx, in_bounds (v_shape v1) idx -> NdArray.get d buf1 v1 idx = NdArray.get d buf2 v2 idx) ->
+  to_msg d buf1 v1 = to_msg d buf2 v2.
+Proof. exact @nd_layout_independent. Qed.
+Print Assumptions C16_ndarray_layout_independent.
+
+Theorem C16_ndarray_flat_length : forall (A : Type) (d : A) buf v, length (to_flat d buf v) = nd_size (v_shape v).
+Proof. exact @to_flat_length. Qed.
+Print Assumptions C16_ndarray_flat_length.
+
+(* the statement without "at least one axis" is false of the code: a zero-dimensional array cannot be read back *)
+Theorem C16_ndarray_roundtrip_zero_dim_refuted : exists (buf : list Z) v, from_msg (to_msg 0%Z buf v) = None.
+Proof. exact nd_roundtrip_zero_dim_refuted. Qed.
+Print Assumptions C16_ndarray_roundtrip_zero_dim_refuted.
+
+(* bit arrays: packed most significant bit first in the C order of the indices, zero padded *)
+Theorem C16_bitarray_roundtrip : forall (d : bool) buf v, v_shape v <> [] ->
+  from_bitmsg (to_bitmsg d buf v) = Some (v_shape v, to_flat d buf v).
+Proof. exact bitarray_roundtrip. Qed.
+Print Assumptions C16_bitarray_roundtrip.
+
+Example C16_ndarray_example :
+  let buf := [10; 11; 12; 13; 14; 15]%Z in
+  let c := mkV [2; 3]%nat [3; 1]%Z 0%Z in
+  let t := mkV [3; 2]%nat [1; 3]%Z 0%Z in
+  let r := mkV [2; 3]%nat [-3; -1]%Z 5%Z in
+  to_msg 0%Z buf c = ([2; 3]%nat, [10; 11; 12; 13; 14; 15]%Z) /\
+  to_msg 0%Z buf t = ([3; 2]%nat, [10; 13; 11; 14; 12; 15]%Z) /\
+  to_msg 0%Z buf r = ([2; 3]%nat, [15; 14; 13; 12; 11; 10]%Z) /\
+  from_flat 0%Z [3; 2]%nat (snd (to_msg 0%Z buf t)) [1; 1]%nat = 14%Z /\
+  v_shape t <> [] /\ in_bounds (v_shape t) [1; 1]%nat.
+Proof. exact nd_example. Qed.
+
+(* ================= measurements of a program (model: Codec/FindMeasurements.v) ================= *)
+From VF Require Import Codec.FindMeasurements Codec.FindMeasurementsProofs.
+
+(* the measurement list of an accepted program has one entry per key, and every operation that writes to a key measures
+   the entry's qubits in the entry's order with the entry's invert mask and tags *)
+Theorem C16_find_measurements_sound : forall ops ms, find_measurements ops = Some ms ->
+  NoDup (map x_key ms) /\ (forall m, In m ms -> describes ops m) /\
+  (forall o, In o ops -> exists m, In m ms /\ x_key m = o_key o).
+Proof. exact find_measurements_sound. Qed.
+Print Assumptions C16_find_measurements_sound.
+
+(* programs that measure a key alike every time (on grid qubits) are accepted *)
+Theorem C16_find_measurements_defined : forall ops,
+  (forall a b, In a ops -> In b ops -> o_key a = o_key b -> alike a b) ->
+  (forall o, In o ops -> o_grid o = true) -> exists ms, find_measurements ops = Some ms.
+Proof. exact find_measurements_defined. Qed.
+Print Assumptions C16_find_measurements_defined.
+
+(* the record of a key is data[r][j][c] = repetition r, j-th operation writing to the key, c-th qubit OF THAT OPERATION;
+   the message of an accepted program holds that bit under the id of that very qubit, at position r * instances + j *)
+Theorem C16_filed_under_measured_qubit : forall ops ms m R data mr,
+  find_measurements ops = Some ms -> In m ms -> mr_to_proto R (x_info m) data = Some mr ->
+  forall j o, nth_error (ops_with_key (x_key m) ops) j = Some o ->
+  forall c q, nth_error (o_qubits o) c = Some q ->
+  exists packed, In (q, packed) (mr_qubits mr) /\
+    forall r, (r < R)%nat ->
+      nth (r * m_instances (x_info m) + j) (unpack_bits packed (R * m_instances (x_info m))) false
+      = nth c (nth j (nth r data []) []) false.
+Proof. exact filed_under_measured_qubit. Qed.
+Print Assumptions C16_filed_under_measured_qubit.
+
+Example C16_find_measurements_example :
+  let a := mkOp 1 [10; 11] [false; false] [] true in
+  let b := mkOp 1 [11; 10] [false; false] [] true in
+  find_measurements [a; a] = Some [mkMX (mkM 1 [10; 11] 2) [false; false] []] /\
+  find_measurements [a; b] = None /\
+  find_measurements [a; mkOp 2 [11; 10] [true; false] [5] true; a] =
+    Some [mkMX (mkM 1 [10; 11] 2) [false; false] []; mkMX (mkM 2 [11; 10] 1) [true; false] [5]] /\
+  find_measurements [mkOp 1 [10] [false] [] false] = None.
+Proof. exact find_measurements_example. Qed.
